@@ -80,6 +80,17 @@ def wall_clock_steps(c, prop="C05"):
               {"op": "own_call", "kind": "goalstate", "tag": "w%s_own" % tag}, {"op": "sleep", "ms": 150}]
         order.extend(["w%s_old" % tag, "w%s_new" % tag])
         return st
+    # before any clock step: every request method (TRACE, OPTIONS, HEAD ... included) is stamped alike; and hosts whose own
+    # clock is off say so in the Date header of their responses -- the next requests still carry the proxy's time
+    import time as _time
+    for mi, method in enumerate(["TRACE", "OPTIONS", "DELETE", "PATCH", "HEAD", "PUT", "POST", "GET"]):
+        rid = "wm%d" % mi
+        skew = [-7200, 900, -86400, 0][mi % 4]
+        steps.append({"op": "request", "conn": "old", "id": rid, "method": method, "target": "/machine?comp=method&m=%s" % method.lower(),
+                      "headers": [["Host", "h"], ["x-ms-azure-host-claims", '{ "isRoot": "false"}']],
+                      "body": {"seed": 3, "len": 9 if method in ("PUT", "POST", "PATCH") else 0}, "framing": "cl" if method in ("PUT", "POST", "PATCH") else "none",
+                      "resp": {"status": 200, "headers": [["Date", email.utils.formatdate(_time.time() + skew, usegmt=True)], ["X-Host", rid]],
+                               "body": {"seed": 1, "len": 0 if method == "HEAD" else 4}, "framing": "cl"}})
     offsets = [0, 7200, -86400 * 3, 35, 0]
     for k, off in enumerate(offsets):
         if k:
@@ -113,15 +124,17 @@ def wall_clock_steps(c, prop="C05"):
                 except Exception:
                     pass
             nrecv += 1
+            claims = [v for n, v in hs if n.lower() == "x-ms-azure-host-claims"]
             rows.append({"e": "recv", "id": e.get("id") or ("own:" + str(e.get("target"))), "wall": e["t"] // 1000 - t0, "dates": len(dates),
+                         "claims": len(claims),
                          "stamp": stamp, "parsed": parsed, "clientCopy": "Thu, 01 Jan 2015 00:00:00 GMT" in dates,
                          "own": not e.get("id")})
-    if nrecv < 2 * len(offsets):
+    if nrecv < 2 * len(offsets) + 8:
         raise util.ToolError("wall-clock scenario: the host received only %d requests" % nrecv)
     c.extra["wall_clock_steps"] = {"offsets": offsets, "requests_at_host": nrecv, "own_calls_at_host": sum(1 for r in rows if r.get("own"))}
     ok, why, res = validate_trace(c, "StampTrace", "StampTrace.cfg", rows, "stamp_%s" % prop, count=1, timeout=300)
     if not ok:
-        bad = next((r for r in rows if r["e"] == "recv" and (r["dates"] != 1 or r["clientCopy"] or not r["parsed"]
+        bad = next((r for r in rows if r["e"] == "recv" and (r["dates"] != 1 or r["clientCopy"] or not r["parsed"] or (not r["own"] and r["claims"] != 1)
                                                              or not (r["wall"] - 5 <= r["stamp"] <= r["wall"] + 1))), None)
         c.violation("after the machine's wall clock was stepped the host receives a date that is not the proxy's current time: %s" % bad,
                     {"kind": "date-not-current-after-clock-step", "broken": why.replace("invariant ", "")}, {"rows": rows})
